@@ -1,4 +1,4 @@
-CLAIMED = False
+CLAIMED = True
 SPEC = {
     "id": "C19",
     "props": "PlzVerif/Props/C19.lean",
@@ -7,15 +7,41 @@ SPEC = {
     "driver": "Driver/C19.lean",
     "needs_plz": False,
     "level": "proof",
-    "level_text": "lexer: full (total, in bounds, errors positioned, for every byte string); parser: model of the grammar core",
-    "technique": "Lean proof over a byte-level lexer model + differential token streams + direct outcome oracle",
+    "level_text": (
+        "lexer (lexer.go, every byte string): total, every buffer read in bounds given the two NUL sentinels, "
+        "every error is l.fail(pos) with pos inside the input, token positions inside the input - full. "
+        "parser (grammar_parse.go, all of it: statements, expressions, f-strings, concatStrings): never out of "
+        "fuel (parse_total), never asks the lexer for a token past the one after EOF (in bounds), every error is "
+        "a positioned lexer/parser error or the concatStrings runtime error - partial: that runtime error is a "
+        "genuine defect (witness theorem + known finding). Not in the model: Go's stack limit (recursion depth is "
+        "only exercised by the stress oracle; two known findings), l.line/l.col, AST contents beyond what decides the outcome"
+    ),
+    "technique": "Lean proof over a byte-level lexer model and a fuel-indexed model of the recursive-descent grammar (program logic over the parser monad, induction on fuel) + differential token streams / parse outcomes + direct outcome oracle",
     "trusted": [
-        "go/ast extractor harness/extract/c19 (sentinels, look-ahead offsets, switch classes and clause summaries, panic sites, recovery shape, unicode tables)",
-        "correspondence harness/cmd/c19 vs Driver/C19.lean (token streams and parse outcomes; repo files, fragments, byte mutations, near-valid programs, exhaustive short strings)",
-        "modelled, not verified: Model/AspLex.lean transcribes lexer.go; l.line/l.col (write-only) are left out",
+        "go/ast extractor harness/extract/c19 (sentinel count, look-ahead offsets, byte classes and per-clause summaries of nextToken's switch, every panic site, the recovery's type assertion, keyword/operator/type-name tables, Go's unicode.Letter/Nd tables)",
+        "correspondence harness/cmd/c19 vs Driver/C19.lean: token streams (type, value, position) and ParseData outcomes (ok + statement count / error position + message kind) on every BUILD-language file of the repo, grammar fragments, byte-level mutations, strings over an adversarial alphabet, a near-valid program generator, and exhaustively all 1-byte inputs, all pairs over 47 bytes, all strings of length <= 3 (4 in thorough) over 15 core bytes",
+        "modelled, not verified: Model/AspLex.lean and Model/AspParse.lean transcribe lexer.go / grammar_parse.go; loops of the parser are recursive calls on fuel",
     ],
     "assumptions": [
-        "Go's utf8.DecodeRune and unicode.IsLetter/IsDigit behave as transcribed (tables regenerated from the toolchain)",
-        "the Go runtime's stack limit is not part of the model: recursion depth is checked only by the stress oracle",
+        "Go's utf8.DecodeRune and unicode.IsLetter/IsDigit behave as transcribed (tables regenerated from the toolchain on every run)",
+        "the Go runtime's stack limit is outside the model: depth is checked only by the stress oracle (child process)",
+        "hang oracle: > 2 s on inputs up to 64 KiB; the quadratic string concatenation of concatStrings on megabyte inputs is not counted as a hang",
     ],
 }
+
+MUTATIONS = """
+Dry-runs on a scratch copy (VERIF_REPO=/var/tmp/c19dev ./check C19 quick, findings_inbox/C19.jsonl loaded):
+ M1  lexer.go newLexer: append(b, 0, 0) -> append(b, 0)                      RED  failing inputs `lex 0a`, `parse 2830`
+     (runtime error index out of range on the Next() after EOF; also C19_facts_ok breaks: sentinels = 1)
+ M2  grammar_parse.go:505 p.fail(tok, "Unexpected token…") -> panic("…")     RED  failing input `parse 21`: the string
+     panic escapes `err = r.(error)` (class parse-panic-escaped-recovery); also grammarPanics fact
+ M3  lexer.go consumeString `case 0:` -> `case 1:`                            RED  failing input `lex 225c` (unterminated
+     string runs off the buffer: index out of range [5] with length 5)
+ M5  lexer.go pop loop `> l.indent` -> `>= l.indent`                          RED  failing input `lex 0a203d` (index out of range [-1])
+ M10 grammar_parse.go parseFString s := tok.Value[2:len-1] -> [2:len-2]       RED  failing input `parse 662222` (f"" : slice bounds out of range)
+ M6  lexer.go AssignFollows l.bytes[l.pos+1] -> l.bytes[l.pos+2]              RED  no failing input exists (two sentinels still
+     cover it): C19_facts_ok (maxLookahead) and the correspondence (`parse f(a==1)`) break -> no-failing-input-found
+ M4  lexer.go: "Unexpected indent" check disabled                              RED  correspondence broken (104 token streams differ),
+     property itself still holds -> no-failing-input-found
+ M7  harmless: local `next` renamed to `ch` throughout nextToken, `l.line++` / `l.col = 0` swapped   GREEN (exit 0, 0 disagreements)
+"""
